@@ -7,7 +7,7 @@ min-pk / message-augmentation scheme is assembled here from py_ecc's curve arith
 and hash-to-curve (own G1 serialiser, own verification equation), which is the same library
 pytezos calls through py_ecc.bls.G2MessageAugmentation - NOT independent (stated in ctx.assumptions).
 """
-import hashlib
+import hashlib, os
 
 from . import b58
 
@@ -149,28 +149,44 @@ def _bls_aug_verify(pub, raw, message):
 
 
 # ---- BIP-39 (checksum recomputed here; only the word list is taken from the `mnemonic` package) ----
-_words = []
+_words = {}
 
 
-def wordlist():
-    if not _words:
-        from mnemonic import Mnemonic
-        _words.extend(Mnemonic('english').wordlist)
-        assert len(_words) == 2048 and len(set(_words)) == 2048
-    return _words
+LANGS = []
 
 
-def mnemonic_from_entropy(ent):
+def languages():
+    """word lists shipped with the `mnemonic` package (data files, read directly)"""
+    if not LANGS:
+        import mnemonic
+        d = os.path.join(os.path.dirname(mnemonic.__file__), 'wordlist')
+        LANGS.extend(sorted(f[:-4] for f in os.listdir(d) if f.endswith('.txt')))
+        LANGS.remove('english')
+        LANGS.insert(0, 'english')
+    return LANGS
+
+
+def wordlist(lang='english'):
+    if lang not in _words:
+        import mnemonic
+        with open(os.path.join(os.path.dirname(mnemonic.__file__), 'wordlist', lang + '.txt'), encoding='utf-8') as f:
+            w = [x.strip() for x in f if x.strip()]
+        assert len(w) == 2048 and len(set(w)) == 2048
+        _words[lang] = w
+    return _words[lang]
+
+
+def mnemonic_from_entropy(ent, lang='english'):
     assert len(ent) in (16, 20, 24, 28, 32)
     cs = len(ent) // 4
     bits = bin(int.from_bytes(ent, 'big'))[2:].zfill(len(ent) * 8) + bin(int.from_bytes(hashlib.sha256(ent).digest(), 'big'))[2:].zfill(256)[:cs]
-    w = wordlist()
+    w = wordlist(lang)
     return [w[int(bits[i:i + 11], 2)] for i in range(0, len(bits), 11)]
 
 
-def mnemonic_valid(words):
+def mnemonic_valid(words, lang='english'):
     """BIP-39: 12/15/18/21/24 known words whose trailing ENT/32 bits are the first bits of sha256(entropy)."""
-    w = wordlist()
+    w = wordlist(lang)
     if len(words) not in (12, 15, 18, 21, 24) or any(x not in w for x in words):
         return False
     bits = ''.join(bin(w.index(x))[2:].zfill(11) for x in words)
